@@ -161,7 +161,15 @@ void sh_thread_join(sh_thread t) {
 
 int sh_mutex_init(sh_mutex* m) { m->id = ++next_mutex_id; m->owner = -1; return 1; }
 void sh_mutex_free(sh_mutex* m) { (void)m; }
-int sh_cond_init(sh_cond* c) { c->id = ++next_cond_id; return 1; }
+/* creating a condition variable is a scheduling point too: in futex.c it sits between the value check of a wait and
+ * the publication of the waiter, so a preemption here lets others run while the waiter is half registered */
+int sh_cond_init(sh_cond* c) {
+    pthread_mutex_lock(&big);
+    c->id = ++next_cond_id;
+    if (current >= 0) schedule();
+    pthread_mutex_unlock(&big);
+    return 1;
+}
 void sh_cond_free(sh_cond* c) { c->id = -c->id; }
 
 void sh_point(const char* what) {
